@@ -298,10 +298,8 @@ class FleetImpl(BufImpl):
     def do(self, op):
         res = ImplBase.do(self, op)
         if res is None or res.startswith("stat") or res.startswith("probe"): return res
-        new = []
-        for it in self.store.ready_items:
-            if id(it) not in self._seen_ready:
-                self._seen_ready.add(id(it)); new.append(it.hid)
+        new = [it.hid for it in self.store.ready_items if id(it) not in self._seen_ready]
+        self._seen_ready = set(id(it) for it in self.store.ready_items)     # what is at the exit now
         return res + " | " + " ".join(map(str, new))
 
     def dispatch(self, op):
@@ -309,6 +307,43 @@ class FleetImpl(BufImpl):
             now = f2t(self.env.now)
             n = len(self.store.items) + len(self.store.ready_items)
             return f"stat {float(self.edge.stats['time_averaged_num_of_items_in_fleet'])!r} {n} {now}"
+        return BufImpl.dispatch(self, op)
+
+
+class SlotImpl(FleetImpl):
+    """Slotted ConveyorBelt (edges/slotted_conveyor.py) with its BeltStore; event-by-event kernel control."""
+    def __init__(self, cap, delay, accumulating=True):
+        ImplBase.__init__(self)
+        from factorysimpy.edges.slotted_conveyor import ConveyorBelt
+        self.family, self.mode = "slot", "FIFO"
+        self.next_delay = 0
+        self.edge = ConveyorBelt(self.env, "CB", capacity=int(cap), delay=t2f(int(delay)), accumulating=accumulating)
+        self.edge.src_node = _DummyNode("src"); self.edge.dest_node = _DummyNode("dst")
+        self.store = self.edge.belt
+        self.api = self.edge
+        self.edge.ready_items = lambda: self.store.ready_items
+        self.edge.occupancy = self.edge.belt_occupancy
+        self.edge.update_final_buffer_avg_content = self.edge.update_final_conveyor_avg_content
+        self._seen_ready = set()
+        self.env.step()          # Initialize of ConveyorBelt.behaviour: it parks on item_arrival_event (never triggered)
+
+    def transparent(self, entry):
+        t, prio, eid, event = entry
+        return FleetImpl.transparent(self, entry) or event is self.store.ready_item_event
+
+    def dispatch(self, op):
+        if op[0] == "stat":
+            now = f2t(self.env.now)
+            n = len(self.store.items) + len(self.store.ready_items)
+            return f"stat {float(self.edge.stats['time_averaged_num_of_items_in_conveyor'])!r} {n} {now}"
+        if op[0] == "probe" and op[1] in ("can_put", "can_get"):
+            return "probe skip"      # both raise AttributeError (defect D6); not part of the model
+        if op[0] == "probe" and op[1] == "mode":
+            return f"probe {self.edge.state} {self.store.noaccumulation_mode_on}"
+        if op[0] == "cp":      # the edge has no cancel methods; nodes cancel through event.resourcename (the belt store)
+            return self.fmt(self.call(None, self.store.reserve_put_cancel, self.tok(op[1])), "ok")
+        if op[0] == "cg":
+            return self.fmt(self.call(None, self.store.reserve_get_cancel, self.tok(op[1])), "ok")
         return BufImpl.dispatch(self, op)
 
 
@@ -373,6 +408,8 @@ def make_impl(header):
         return PrqImpl(w[2])
     if w[1] == "fleet":
         return FleetImpl(w[2], w[3], w[4])
+    if w[1] == "slot":
+        return SlotImpl(w[2], w[3], accumulating=(len(w) < 5 or w[4] != "0"))
     raise ValueError(header)
 
 
